@@ -15,6 +15,11 @@
 (*            unique key 'a1')                                                                *)
 (*   alias    the substances are handed over under alias keys: OrderedDict(key -> Substance whose   *)
 (*            name differs from the key); names of the ODE system are the KEYS                    *)
+(*   opts     the remaining options are passed explicitly in a neutral form (the default SymbolicSys    *)
+(*            class by hand, a Backend object, an empty symbolic_kw, a caller-made time symbol "tau",  *)
+(*            substituted numbers as floats)                                                       *)
+(*   preother the same system object was built the other way round before (other include_params /   *)
+(*            the other builder)                                                                    *)
 (*   cstr     stirred-tank terms requested (feed variables feedratio, fc_<s>)                 *)
 (*   kinds may also be "ma_pk": MassAction(v * g) where g is a PARAMETER KEY shared by all     *)
 (*            such reactions (like a temperature); parameter keys (g, feedratio) are resolved  *)
@@ -84,7 +89,7 @@ IsConfig(cf, n) ==
     /\ IsQ(cf.aval) /\ IsQ(cf.tval) /\ IsQ(cf.qval)
     /\ Len(cf.avals) >= n /\ Len(cf.tvals) >= n
     /\ \A i \in 1..n : IsQ(cf.avals[i]) /\ IsQ(cf.tvals[i])
-    /\ cf.alias \in BOOLEAN
+    /\ cf.alias \in BOOLEAN /\ cf.opts \in BOOLEAN /\ cf.preother \in BOOLEAN
     /\ cf.gsub \in {"none", "num", "expr"} /\ cf.fsub \in {"none", "num"}
     /\ cf.psym \in {"none", "order", "rev"} /\ cf.symodict \in BOOLEAN
     /\ cf.rebuild \in BOOLEAN /\ cf.implicit \in BOOLEAN
@@ -231,9 +236,7 @@ ExpectedFAt(cf, cc) == RatesFed(EffSys(cf), cc, EffFeed(cf))
 ExpectedF(cf) == ExpectedFAt(cf, c)
 ExpectedRValsAt(cf, cc) == [i \in 1..Len(rsys) |-> RateOf(EffSys(cf)[i], cc)]
 ExpectedRVals(cf) == ExpectedRValsAt(cf, c)
-\* a second state for calling the generated callbacks again: the concentrations in reverse order
-C2 == [s \in Species |-> IF s \in Substs
-                          THEN c[subst[Len(subst) + 1 - (CHOOSE j \in DOMAIN subst : subst[j] = s)]] ELSE c[s]]
+\* (C2 of Kinetics: a second state for calling the generated callbacks again)
 
 (* composition balance matrix: rows = sorted keys of the listed substances, columns = substances *)
 CompKeys == UNION { Support(Comp[subst[j]]) : j \in DOMAIN subst }
@@ -244,7 +247,7 @@ ExpectedB == LET ks == SetToSortSeq(CompKeys, <)
 OInit == Init /\ cfg = [builder |-> "none"]
 
 Build(cf) ==
-    /\ phase = "ready" /\ Accepted(cf, Len(rsys)) /\ cf.cstr = feed.on
+    /\ phase = "ready" /\ rsys # <<>> /\ Accepted(cf, Len(rsys)) /\ cf.cstr = feed.on
     /\ cfg' = cf /\ phase' = "built"
     /\ UNCHANGED <<rsys, subst, c, feed, sphase, hist>>
 
@@ -253,7 +256,8 @@ OAdd == GenAdd /\ UNCHANGED cfg
 OState == GenState /\ UNCHANGED cfg
 OFeed == GenFeed /\ UNCHANGED cfg
 OReassign == GenReassign /\ UNCHANGED cfg
-ONext == OAdd \/ OState \/ OFeed \/ OReassign \/ GenBuild
+OSort == GenSort /\ UNCHANGED cfg
+ONext == OAdd \/ OState \/ OFeed \/ OReassign \/ OSort \/ GenBuild
 OSpec == OInit /\ [][ONext]_ovars
 
 Built == phase = "built"
@@ -331,6 +335,7 @@ CfgOut(cf) == [builder |-> cf.builder, incl |-> cf.incl, kinds |-> cf.kinds, sub
                cstr |-> cf.cstr, comp |-> cf.comp,
                subvals |-> SubSeq(cf.subvals, 1, Len(rsys)), aval |-> cf.aval, tval |-> cf.tval,
                avals |-> SubSeq(cf.avals, 1, Len(rsys)), tvals |-> SubSeq(cf.tvals, 1, Len(rsys)), alias |-> cf.alias,
+               opts |-> cf.opts, preother |-> cf.preother,
                gsub |-> cf.gsub, fsub |-> cf.fsub, consts |-> cf.consts, symorder |-> cf.symorder,
                gval |-> cf.gval, gsubval |-> cf.gsubval, gconst |-> cf.gconst,
                fsubval |-> cf.fsubval, fconst |-> cf.fconst, qval |-> cf.qval,
@@ -361,6 +366,7 @@ OCaseExp == [ names |-> ExpectedNames,
               f2 |-> BySubst(ExpectedFAt(cfg, C2)),
               rvals2 |-> ExpectedRValsAt(cfg, C2),
               frame |-> TRUE,   \* Build leaves the system as it was (UNCHANGED rsys)
+              indep |-> "tau",  \* the caller's time symbol (observed when one is handed over: cfg.opts, create_odesys)
               paramseq |-> cfg.psym # "none",   \* param_names follow the caller's parameter symbols
               rpoly |-> [i \in 1..Len(rsys) |-> PolyOut(ExpectedRatePoly(cfg, i))],
               B |-> IF cfg.comp THEN ExpectedB ELSE <<>>,
